@@ -10,11 +10,15 @@
      - the CARTESIAN product of depth d >= 1 over streams whose tag groups are unrelated (e.g. all tokens of one
        depth): exactly the full cross product, each combination once, composite tags + order independence;
      - the one-tag dot product (special case, kept).
-   NOT PROVED: broadcast with several scattered ports / several levels (per-port antichains in general), nesting.
+     - NESTING as the CWL translator builds it: dot( dot(S) | cartesian_d(S) , Q... ), by composing the inner
+       specification with the broadcast theorem (re-proved for schema elements in Comb/GBcast.v);
+   NOT PROVED: broadcast with several independently scattered ports at the same combinator / several levels (per-port
+   antichains in general), trees of depth > 2.
    These are decided case by case by the check's oracle and tied to the model by the correspondence.
    The three [_refuted] theorems are the input classes where the faithful model (and the code) break the text. *)
 From Coq Require Import List Ascii Bool NArith Arith Permutation.
-From SF Require Import Base.Str Tags.Model Comb.Model Comb.Proofs Comb.Flat Comb.Cart Comb.Bcast.
+From SF Require Import Base.Str Tags.Model Comb.Model Comb.Proofs Comb.Flat Comb.Cart Comb.Bcast Comb.Nested.
+From SF Require Comb.GBcast.
 Import ListNotations.
 Local Open Scope string_scope. Local Open Scope list_scope.
 
@@ -77,6 +81,33 @@ Proof. exact cart_order_independent. Qed.
 Theorem C02_dot_broadcast_partial : forall items r dp (arr : list arv),
   wfb items r dp arr -> run (c1 items) init_state arr = (outs_b items r [] arr, None).
 Proof. exact dot_broadcast. Qed.
+
+(* NESTED, the trees the CWL translator builds for a step with several scatter inputs S and non-scattered inputs Q
+   (translator._create_residual_combinator): a dot product whose first item is the scatter combinator over S -- a dot
+   product, or a cartesian product of depth d -- and whose other items are the ports Q.
+   Hypotheses: the arrivals on the ports S are well-formed for the inner combinator (Flat.wf / wfc, as in the flat and
+   cartesian theorems); every other arrival is on a port of Q; and the list of elements reaching the outer combinator
+   -- [derive]: for an arrival on S the combinations the inner SPECIFICATION emits (Flat.emission / mk_out of
+   emitted), for an arrival on Q the token itself -- is well-formed for the broadcast theorem (GBcast.wfb: the inner
+   combinations carry pairwise unrelated strict descendants of r, each once; each port of Q at most one token tagged r).
+   Then for EVERY such arrival order the run never raises and equals [nouts]: the inner combinator emits what its
+   specification says, and the outer one emits, for every inner combination, exactly one combination made of it and of
+   the broadcast tokens of Q, at the arrival that completes it (GBcast.emission_b), flattened into one port -> token map.
+   PARTIAL: the well-formedness of the derived list is a hypothesis about the specification functions, not derived from
+   primitive conditions on the tags (for a scatter it holds: C02_nested_example); trees of depth > 2 are not covered. *)
+Theorem C02_nested_partial : forall S cname Q r (arr : list arv),
+  (forall x, In x arr -> is_scatter S x = false -> In (fst x) Q) ->
+  wf S (scattered S arr) ->
+  GBcast.wfb (names cname Q) r cname (derive S cname (emission S) [] arr) ->
+  run (tree S cname Q KDot) init_state arr = (nouts S cname Q r (emission S) [] [] arr, None).
+Proof. exact nested_dot_dot. Qed.
+Theorem C02_nested_cartesian_partial : forall S d (Hd : d <> 0) cname Q r (arr : list arv),
+  (forall x, In x arr -> is_scatter S x = false -> In (fst x) Q) ->
+  wfc S d (scattered S arr) ->
+  GBcast.wfb (names cname Q) r cname (derive S cname (fun ai x => map mk_out (emitted S d ai x)) [] arr) ->
+  run (tree S cname Q (KCart d)) init_state arr =
+  (nouts S cname Q r (fun ai x => map mk_out (emitted S d ai x)) [] [] arr, None).
+Proof. exact nested_dot_cart. Qed.
 
 (* PARTIAL (one tag only): a dot product over the ports [items], one token per port, all tagged g, arriving in ANY
    order: nothing is emitted before the last arrival, which emits exactly one combination holding every port's
@@ -173,6 +204,48 @@ Proof.
   - simpl. intros x y [<-|[<-|[<-|[]]]] [<-|[<-|[<-|[]]]] Px Py N; try discriminate Px; try discriminate Py;
       try (exfalso; apply N; reflexivity); vm_compute; reflexivity.
 Qed.
+(* the nested specification on a scatter over b, c with the non-scattered a arriving in the middle *)
+Example C02_nested_example :
+  let arr : list arv := [("b", (1%N, "0.9")); ("c", (2%N, "0.9")); ("b", (3%N, "0.10")); ("a", (0%N, "0"));
+                         ("c", (4%N, "0.10"))] in
+  derive ["b"; "c"] "in1" (emission ["b"; "c"]) [] arr =
+    [("in1", ESch [("b", (1%N, "0.9")); ("c", (2%N, "0.9"))]); ("a", ETok (0%N, "0"));
+     ("in1", ESch [("b", (3%N, "0.10")); ("c", (4%N, "0.10"))])] /\
+  nouts ["b"; "c"] "in1" ["a"] "0" (emission ["b"; "c"]) [] [] arr =
+    [[]; []; []; [[("b", (1%N, "0.9")); ("c", (2%N, "0.9")); ("a", (0%N, "0.9"))]];
+     [[("a", (0%N, "0.10")); ("b", (3%N, "0.10")); ("c", (4%N, "0.10"))]]] /\
+  run (tree ["b"; "c"] "in1" ["a"] KDot) init_state arr =
+    (nouts ["b"; "c"] "in1" ["a"] "0" (emission ["b"; "c"]) [] [] arr, None).
+Proof. vm_compute. repeat split; reflexivity. Qed.
+(* ... and the hypotheses of C02_nested_partial hold for it *)
+Example C02_nested_hyp_example :
+  let arr : list arv := [("b", (1%N, "0.9")); ("c", (2%N, "0.9")); ("b", (3%N, "0.10")); ("a", (0%N, "0"));
+                         ("c", (4%N, "0.10"))] in
+  (forall x, In x arr -> is_scatter ["b"; "c"] x = false -> In (fst x) ["a"]) /\
+  wf ["b"; "c"] (scattered ["b"; "c"] arr) /\
+  GBcast.wfb (names "in1" ["a"]) "0" "in1" (derive ["b"; "c"] "in1" (emission ["b"; "c"]) [] arr).
+Proof.
+  split; [|split].
+  - simpl. intros x [<-|[<-|[<-|[<-|[<-|[]]]]]]; vm_compute; intros; auto; discriminate.
+  - vm_compute scattered. split; [|split; [|split]].
+    + repeat (apply NoDup_cons; [simpl; intuition congruence|]). apply NoDup_nil.
+    + simpl. intros x [<-|[<-|[<-|[<-|[]]]]]; simpl; auto.
+    + unfold akey, atag. simpl. repeat (apply NoDup_cons; [simpl; intuition congruence|]). apply NoDup_nil.
+    + intros x y Hx Hy. simpl in Hx, Hy.
+      destruct Hx as [<-|[<-|[<-|[<-|[]]]]]; destruct Hy as [<-|[<-|[<-|[<-|[]]]]]; intros N;
+        try (exfalso; apply N; reflexivity); vm_compute; reflexivity.
+  - replace (derive ["b"; "c"] "in1" (emission ["b"; "c"]) [] _) with
+      [("in1", ESch [("b", (1%N, "0.9")); ("c", (2%N, "0.9"))]); ("a", ETok (0%N, "0"));
+       ("in1", ESch [("b", (3%N, "0.10")); ("c", (4%N, "0.10"))])] by (vm_compute; reflexivity).
+    split; [|split; [|split; [|split; [|split]]]].
+    + repeat (apply NoDup_cons; [simpl; intuition congruence|]). apply NoDup_nil.
+    + simpl. auto.
+    + simpl. intros x [<-|[<-|[<-|[]]]]; simpl; auto.
+    + vm_compute. repeat (apply NoDup_cons; [simpl; intuition congruence|]). apply NoDup_nil.
+    + simpl. intros x [<-|[<-|[<-|[]]]]; vm_compute; repeat split; congruence.
+    + simpl. intros x y [<-|[<-|[<-|[]]]] [<-|[<-|[<-|[]]]] Px Py N; try discriminate Px; try discriminate Py;
+        try (exfalso; apply N; reflexivity); vm_compute; reflexivity.
+Qed.
 (* broadcast of a parent tag and a cartesian product, as the model computes them (not covered by a theorem) *)
 Example C02_broadcast_example :
   concat (fst (run (mkouter KDot [IPort "a"; IPort "b"]) init_state
@@ -191,6 +264,8 @@ Print Assumptions C02_cartesian_partial.
 Print Assumptions C02_uniform_depth_groups_unrelated.
 Print Assumptions C02_order_independent_cartesian_partial.
 Print Assumptions C02_dot_broadcast_partial.
+Print Assumptions C02_nested_partial.
+Print Assumptions C02_nested_cartesian_partial.
 Print Assumptions C02_dot_one_tag_partial.
 Print Assumptions C02_order_independent_one_tag_partial.
 Print Assumptions C02_dot_ancestor_pair_refuted.
